@@ -29,12 +29,70 @@ theorem tau_bridge (a0 a1 a2 a3 : ℝ) : tau a0 a1 a2 = Gen.C08.minmax_tau a0 a1
   simp only [tau, Gen.C08.minmax_tau]
 theorem value_bridge (a0 a1 a2 a3 t : ℝ) : value a0 a1 a2 a3 t = Gen.C08.minmax_value a0 a1 a2 a3 t := by
   simp only [value, Gen.C08.minmax_value]
+/-- `q` of the code: `tau + sqrt delta` when `tau ≥ 0`, `tau - sqrt delta` otherwise -/
+noncomputable def qOf (a0 a1 a2 a3 : ℝ) : ℝ :=
+  if tau a0 a1 a2 ≥ 0 then tau a0 a1 a2 + Real.sqrt (delta a0 a1 a2 a3) else tau a0 a1 a2 - Real.sqrt (delta a0 a1 a2 a3)
+
+/-- the two traced paths (`tau ≥ 0`, `tau < 0`; both with `q ≠ 0`) are the model's `r1`, `r2` -/
 theorem r_bridge (a0 a1 a2 a3 : ℝ) :
-    (tau a0 a1 a2 + Real.sqrt (delta a0 a1 a2 a3)) / denom a0 a1 a2 a3 = Gen.C08.minmax_r1 a0 a1 a2 a3 ∧
-    (tau a0 a1 a2 - Real.sqrt (delta a0 a1 a2 a3)) / denom a0 a1 a2 a3 = Gen.C08.minmax_r2 a0 a1 a2 a3 := by
+    (tau a0 a1 a2 ≥ 0 → qOf a0 a1 a2 a3 / denom a0 a1 a2 a3 = Gen.C08.minmax_r1_pos a0 a1 a2 a3 ∧
+      (a0 - a1) / qOf a0 a1 a2 a3 = Gen.C08.minmax_r2_pos a0 a1 a2 a3) ∧
+    (¬ tau a0 a1 a2 ≥ 0 → qOf a0 a1 a2 a3 / denom a0 a1 a2 a3 = Gen.C08.minmax_r1_neg a0 a1 a2 a3 ∧
+      (a0 - a1) / qOf a0 a1 a2 a3 = Gen.C08.minmax_r2_neg a0 a1 a2 a3) := by
   have hd : delta a0 a1 a2 a3 = (((a1 ^ 2) - ((a0 + a1) * a2)) + (a2 ^ 2)) + ((a0 - a1) * a3) := by
     simp only [delta]; ring
-  simp only [Gen.C08.minmax_r1, Gen.C08.minmax_r2, hd, tau, denom, and_self]
+  constructor
+  · intro h
+    rw [qOf, if_pos h]
+    simp only [Gen.C08.minmax_r1_pos, Gen.C08.minmax_r2_pos, hd, tau, denom, and_self]
+  · intro h
+    rw [qOf, if_neg h]
+    simp only [Gen.C08.minmax_r1_neg, Gen.C08.minmax_r2_neg, hd, tau, denom, and_self]
+
+/-- Vieta: the product of the two roots of the derivative -/
+theorem tau_sq_sub_delta (a0 a1 a2 a3 : ℝ) :
+    tau a0 a1 a2 ^ 2 - delta a0 a1 a2 a3 = (a0 - a1) * denom a0 a1 a2 a3 := by
+  simp only [tau, delta, denom]; ring
+
+/-- the cancellation-free pair `{q/denom, (a0-a1)/q}` (or `q/denom` twice when `q = 0`) is the
+pair `{(tau + sqrt delta)/denom, (tau - sqrt delta)/denom}` -/
+theorem stable_roots (a0 a1 a2 a3 : ℝ) (hden : denom a0 a1 a2 a3 ≠ 0) (hdel : 0 ≤ delta a0 a1 a2 a3) :
+    let q := qOf a0 a1 a2 a3
+    let r1 := q / denom a0 a1 a2 a3
+    let r2 := if q ≠ 0 then (a0 - a1) / q else r1
+    ((tau a0 a1 a2 + Real.sqrt (delta a0 a1 a2 a3)) / denom a0 a1 a2 a3 = r1 ∧
+      (tau a0 a1 a2 - Real.sqrt (delta a0 a1 a2 a3)) / denom a0 a1 a2 a3 = r2) ∨
+    ((tau a0 a1 a2 + Real.sqrt (delta a0 a1 a2 a3)) / denom a0 a1 a2 a3 = r2 ∧
+      (tau a0 a1 a2 - Real.sqrt (delta a0 a1 a2 a3)) / denom a0 a1 a2 a3 = r1) := by
+  intro q r1 r2
+  have hs := Real.sqrt_nonneg (delta a0 a1 a2 a3)
+  have hv : (tau a0 a1 a2 + Real.sqrt (delta a0 a1 a2 a3)) * (tau a0 a1 a2 - Real.sqrt (delta a0 a1 a2 a3))
+      = (a0 - a1) * denom a0 a1 a2 a3 := by
+    rw [← tau_sq_sub_delta]
+    have := Real.sq_sqrt hdel
+    nlinarith [this]
+  by_cases ht : tau a0 a1 a2 ≥ 0
+  · left
+    have hq : q = tau a0 a1 a2 + Real.sqrt (delta a0 a1 a2 a3) := by simp only [q, qOf, if_pos ht]
+    refine ⟨by simp only [r1, hq], ?_⟩
+    by_cases hq0 : q ≠ 0
+    · simp only [r2, if_pos hq0]
+      rw [hq] at hq0 ⊢
+      rw [div_eq_div_iff hden hq0]; linarith
+    · simp only [r2, if_neg hq0, r1]
+      have hq0' : tau a0 a1 a2 + Real.sqrt (delta a0 a1 a2 a3) = 0 := by
+        rw [← hq]; exact not_not.mp hq0
+      have h1 : tau a0 a1 a2 = 0 := by linarith
+      have h2 : Real.sqrt (delta a0 a1 a2 a3) = 0 := by linarith
+      rw [hq, h1, h2]; simp
+  · right
+    have hq : q = tau a0 a1 a2 - Real.sqrt (delta a0 a1 a2 a3) := by simp only [q, qOf, if_neg ht]
+    have hq0 : q ≠ 0 := by
+      rw [hq]; have := not_le.mp ht; intro h; linarith
+    refine ⟨?_, by simp only [r1, hq]⟩
+    simp only [r2, if_pos hq0]
+    rw [hq] at hq0 ⊢
+    rw [div_eq_div_iff hden hq0]; linarith
 
 /-- when the cubic term vanishes the code hands the derivative's coefficients to the root
 finder: they are the coefficients of the derivative of the (quadratic) coordinate function -/
@@ -171,6 +229,27 @@ theorem pmin_spec (l : List ℝ) (m : ℝ) (h : pmin l = some m) : (∀ v ∈ l,
 
 /-! ## containment and tightness for a cubic coordinate -/
 
+theorem mem_cand_list (r1 r2 c : ℝ)
+    (hc : c ∈ [0, 1] ++ (if 0 < r1 ∧ r1 < 1 then [r1] else []) ++ (if 0 < r2 ∧ r2 < 1 then [r2] else [])) :
+    c ∈ Icc (0 : ℝ) 1 := by
+  simp only [List.mem_append, List.mem_cons, List.mem_singleton] at hc
+  rcases hc with ((rfl | rfl | hc) | hc) | hc
+  · exact ⟨le_refl _, zero_le_one⟩
+  · exact ⟨zero_le_one, le_refl _⟩
+  · simp at hc
+  · split_ifs at hc with hh
+    · simp at hc; subst hc; exact ⟨hh.1.le, hh.2.le⟩
+    · simp at hc
+  · split_ifs at hc with hh
+    · simp at hc; subst hc; exact ⟨hh.1.le, hh.2.le⟩
+    · simp at hc
+
+theorem cand_list_has (r1 r2 t : ℝ) (ht : t ∈ Ioo (0 : ℝ) 1) (h : t = r1 ∨ t = r2) :
+    t ∈ [0, 1] ++ (if 0 < r1 ∧ r1 < 1 then [r1] else []) ++ (if 0 < r2 ∧ r2 < 1 then [r2] else []) := by
+  rcases h with h | h
+  · have hh := ht; rw [h] at hh; simp [hh.1, hh.2, h]
+  · have hh := ht; rw [h] at hh; simp [hh.1, hh.2, h]
+
 theorem cands_spec (a0 a1 a2 a3 : ℝ) (cs : List ℝ) (h : cands Real.sqrt a0 a1 a2 a3 = some cs) :
     (0 : ℝ) ∈ cs ∧ (1 : ℝ) ∈ cs ∧ (∀ c ∈ cs, c ∈ Icc (0 : ℝ) 1) ∧
     (∀ t ∈ Ioo (0 : ℝ) 1, dvalue a0 a1 a2 a3 t = 0 → t ∈ cs) := by
@@ -183,25 +262,17 @@ theorem cands_spec (a0 a1 a2 a3 : ℝ) (cs : List ℝ) (h : cands Real.sqrt a0 a
       subst h
       refine ⟨by simp, by simp, ?_, ?_⟩
       · intro c hc
-        simp only [List.mem_append, List.mem_cons, List.mem_singleton] at hc
-        rcases hc with ((rfl | rfl | hc) | hc) | hc
-        · exact ⟨le_refl _, zero_le_one⟩
-        · exact ⟨zero_le_one, le_refl _⟩
-        · simp at hc
-        · split_ifs at hc with hh
-          · simp at hc; subst hc; exact ⟨hh.1.le, hh.2.le⟩
-          · simp at hc
-        · split_ifs at hc with hh
-          · simp at hc; subst hc; exact ⟨hh.1.le, hh.2.le⟩
-          · simp at hc
+        exact mem_cand_list _ _ c hc
       · intro t ht hcrit
-        rcases critical_is_root a0 a1 a2 a3 t hden hdel hcrit with h1 | h1
-        · have : (0 < (tau a0 a1 a2 + Real.sqrt (delta a0 a1 a2 a3)) / denom a0 a1 a2 a3 ∧
-              (tau a0 a1 a2 + Real.sqrt (delta a0 a1 a2 a3)) / denom a0 a1 a2 a3 < 1) := by rw [← h1]; exact ht
-          simp [this, h1]
-        · have : (0 < (tau a0 a1 a2 - Real.sqrt (delta a0 a1 a2 a3)) / denom a0 a1 a2 a3 ∧
-              (tau a0 a1 a2 - Real.sqrt (delta a0 a1 a2 a3)) / denom a0 a1 a2 a3 < 1) := by rw [← h1]; exact ht
-          simp [this, h1]
+        have hst := stable_roots a0 a1 a2 a3 hden hdel
+        simp only [qOf] at hst
+        apply cand_list_has _ _ t ht
+        rcases critical_is_root a0 a1 a2 a3 t hden hdel hcrit with h1 | h1 <;>
+          rcases hst with ⟨e1, e2⟩ | ⟨e1, e2⟩
+        · left; rw [h1, e1] <;> try (split_ifs <;> rfl)
+        · right; rw [h1, e1] <;> try (split_ifs <;> rfl)
+        · right; rw [h1, e2] <;> try (split_ifs <;> rfl)
+        · left; rw [h1, e2] <;> try (split_ifs <;> rfl)
     · rw [if_neg hdel] at h
       simp only [Option.some.injEq] at h
       subst h
